@@ -22,8 +22,11 @@ Device, HardlinkGroups, MissingDirs, PathKeyed, Raised), Arch_* (the tarball the
 with the stdlib: one member per entry, links only backwards inside one inode group, one data-bearing
 member per group), Empty_*.
 
-Carve-outs ("Unspecified", counted, never judged): symlink loops; two entries that land on the same place
-after resolution; entries below a non-directory.  Generator restrictions: ".." only leading in link
+Carve-outs ("Unspecified", counted, never judged): symlink loops (convert_archive does not even terminate on
+some of them, e.g. /usr -> /usr/x with another link below /usr: the generator never points a link below
+itself, and every case runs under a 20 s limit — a case that does not come back is recorded as
+raised=Timeout and judged like any other exception); two entries that land on the same place after
+resolution; entries below a non-directory.  Generator restrictions: ".." only leading in link
 targets (textual vs physical ".." differ otherwise); hard links share attributes (one inode on disk);
 ids/mtimes < 2^31; attributes of directories supplied for missing parents are not specified; member ORDER
 of the result is not part of the property.  write_set(compressor=None) is not supported by
@@ -56,7 +59,7 @@ class CaseTimeout(BaseException):
 
 
 @contextlib.contextmanager
-def time_limit(seconds=60):
+def time_limit(seconds=20):
     """a case normally takes ~20 ms; a case that does not come back is recorded as raised=Timeout and judged."""
     def _h(*a):
         raise CaseTimeout()
@@ -234,7 +237,7 @@ class Tar:
                     ev["arch_error"] = type(e).__name__
                 ev["got"] = project(self.read(path, comp), self.cids)
         except CaseTimeout:
-            ev["raised"], ev["got"] = "Timeout: no result after 60 s", []
+            ev["raised"], ev["got"] = "Timeout: no result after 20 s", []
         except Exception as e:
             ev["raised"] = f"{type(e).__name__}: {str(e)[:100]}"
         finally:
@@ -280,7 +283,7 @@ class Tar:
             with time_limit():
                 ev["got"] = project(self.read(path, comp), self.cids)
         except CaseTimeout:
-            ev["raised"], ev["got"] = "Timeout: no result after 60 s", []
+            ev["raised"], ev["got"] = "Timeout: no result after 20 s", []
         except Exception as e:
             ev["raised"] = f"{type(e).__name__}: {str(e)[:100]}"
         finally:
@@ -490,8 +493,8 @@ def run(ck):
     archs = sorted((c for c in cases if c["kind"] == "arch"), key=lambda c: repr(c["members"]))
     r_ = rng(25)
     if ck.quick:
-        sets = r_.sample(sets, min(len(sets), 300))
-        archs = r_.sample(archs, min(len(archs), 120))
+        sets = r_.sample(sets, min(len(sets), 200))
+        archs = r_.sample(archs, min(len(archs), 80))
     else:
         ck.exhaustive = True
     tid = 0
@@ -524,7 +527,7 @@ def run(ck):
         tid += 1
 
     # 4. code -> spec
-    for n in range(ck.pick(400, 5000)):
+    for n in range(ck.pick(300, 3000)):
         ents = rand_tree(r_)
         comp = ("bz2", "bz2", "plain")[n % 3]
         f = features(ents)
